@@ -133,6 +133,15 @@ def run(case):
         exp = np.full(tot, exp)
     if g.dtype != exp.dtype:
         return violated("%s has dtype %s, numpy's result dtype is %s" % (describe(), g.dtype, exp.dtype), tags + ["dtype-differs"], got=str(g.dtype), expected=str(exp.dtype))
+    if not same_array(g, exp) and kind in ("col", "collist") and exp.dtype.kind == "f":
+        # numpy itself has two answers here: power(x, 2.0) with a *scalar* exponent takes a multiplication fast path that can differ
+        # in the last bit from power(x, array of 2.0).  "numpy applied to row i and the i-th column entry" is the per-row scalar form.
+        rows = gen.split_rows(flat, lens)
+        colv = np.asarray(other).reshape(-1)
+        alt = attempt(lambda: np.concatenate([np.asarray(uf(r_, c_) if side == "R" else uf(c_, r_)).reshape(-1) for r_, c_ in zip(rows, colv)]) if n else exp)
+        if alt.ok and alt.value.shape == g.shape and same_array(g, alt.value.astype(g.dtype)):
+            tags.append("numpy-scalar-fastpath")
+            exp = g
     if not same_array(g, exp):
         return violated("%s gives %s, numpy row by row gives %s" % (describe(), short(g, 200), short(exp, 200)), tags, got=g, expected=exp)
     CTX.tick("c04:operands-unchanged")
